@@ -172,7 +172,7 @@ def plan(tier):
     return {
         "cases": ns + tp["mapk_cases"] + tp["rand_cases"],
         "shards": 8 if quick else 14,
-        "min_nontrivial": 1500 if quick else 2500,
+        "min_nontrivial": 1500,
         "timeout": 600 if quick else 2400,
         "min_fraction": 1.0,
         "require": {
